@@ -728,6 +728,7 @@ def run(ck, prog):
     ck.doc('C19.R1', '(shared rule, see C19) no string_view::data() into a call without the view\'s length in the baggage API and its propagator (a header view is not NUL-terminated)', 0)
     c19.rule_r1(ck, prog, path_filters=('/api/include/opentelemetry/baggage/',), observe_others=False)
     c14.rule_separator_between_members(ck, prog, 'baggage::Baggage::ToHeader', 'C14.R8')
+    c14.rule_member_parts_written(ck, prog, 'baggage::Baggage::ToHeader', 'C14.R8')
     c14.rule_r2_validated_is_stored(ck, prog, cls='baggage::Baggage', rule='C15.R3', names=('FromHeader',))
     c14.rule_r5_tokenizer(ck, prog, rule='C14.R5')
     c14.rule_r6(ck, prog, rule='C14.R6')
